@@ -7,7 +7,7 @@
 From Coq Require Import String.
 From Coq Require Import List NArith ZArith QArith Qround Bool Permutation Sorted.
 From RareV Require Import Base.Hex Base.Num Base.Res Model.Agg Model.Welford Corr.C07Case
-  Proofs.AggMap Proofs.AggCounter Proofs.AggSubkey Proofs.AggTableWf Proofs.AggTable Proofs.AggTableTot
+  Proofs.AggMap Proofs.AggSplit Proofs.AggCounter Proofs.AggSubkey Proofs.AggTableWf Proofs.AggTable Proofs.AggTableTot
   Proofs.AggAccum Proofs.AggTrim Proofs.AggLawDefs Proofs.AggLawMeaning Proofs.AggLaw Proofs.WelfordProof Proofs.AggCheck.
 Import ListNotations.
 Close Scope Q_scope.
@@ -55,7 +55,7 @@ Print Assumptions C07_subkey_fold.
 
 Theorem C07_subkey_cell : forall h k s i, nth_error (s_keys (s_run h)) i = Some s ->
   forall c vec, afind k (s_matches (s_run h)) = Some (c, vec) ->
-  nth i vec 0%Z = wrap64 (sum_ab k s (valid3 0%N h)) /\ c = wrap64 (sum_a k (valid3 0%N h)).
+  nth i vec 0%Z = wrap64 (sum_ab k s (valid3 [0%N] h)) /\ c = wrap64 (sum_a k (valid3 [0%N] h)).
 Proof. exact subkey_cell_proof. Qed.
 Print Assumptions C07_subkey_cell.
 
@@ -64,8 +64,41 @@ Proof. exact subkey_perm_proof. Qed.
 Print Assumptions C07_subkey_perm.
 
 (* ------------------------------------------------------------------ table *)
-(* cells, row sums, column totals and the error count are those of the specification, for every
-   single-byte delimiter *)
+(* The splitter, for ANY non-empty delimiter (tabulate/heatmap/spark --delim): Next() cuts at the
+   first occurrence of the WHOLE delimiter — the cut is at an occurrence and no occurrence starts
+   earlier (so a proper prefix of the delimiter inside a key never cuts it), and conversely the first
+   occurrence is where the cut is; no occurrence = the rest is the last field.  For a one-byte
+   delimiter this is the byte cut used by the counters. *)
+Theorem C07_split_sound : forall d s p r, d <> [] -> cutd d s = (p, Some r) ->
+  s = p ++ d ++ r /\ forall i, (i < length p)%nat -> is_pre d (skipn i s) = None.
+Proof. exact cutd_some. Qed.
+Theorem C07_split_last : forall d s p, d <> [] -> cutd d s = (p, None) ->
+  p = s /\ forall i, is_pre d (skipn i s) = None.
+Proof. exact cutd_none. Qed.
+Theorem C07_split_complete : forall d x r, d <> [] ->
+  (forall i, (i < length x)%nat -> is_pre d (skipn i (x ++ d ++ r)) = None) ->
+  cutd d (x ++ d ++ r) = (x, Some r).
+Proof. exact cutd_complete. Qed.
+Theorem C07_split_prefix : forall d s r, is_pre d s = Some r <-> s = d ++ r.
+Proof. exact is_pre_spec. Qed.
+Theorem C07_split_one_byte : forall b s, cutd [b] s = cut b s.
+Proof. exact cutd_one. Qed.
+Print Assumptions C07_split_sound.
+Print Assumptions C07_split_last.
+Print Assumptions C07_split_complete.
+Print Assumptions C07_split_prefix.
+Print Assumptions C07_split_one_byte.
+
+(* the fields of a table sample: "a d b d v" with a, b, v free of (earlier) delimiter occurrences is
+   column a, row b, increment atoi v (parse error when v is not an int64) *)
+Theorem C07_table_fields : forall d a b v, d <> [] ->
+  dfree d a (b ++ d ++ v) -> dfree d b v -> (forall i, is_pre d (skipn i v) = None) ->
+  parse3 d (a ++ d ++ b ++ d ++ v) = match atoi v with Some z => Some (a, b, z) | None => None end.
+Proof. exact parse3_three. Qed.
+Print Assumptions C07_table_fields.
+
+(* cells, row sums, column totals and the error count are those of the specification, for EVERY
+   delimiter (any length) *)
 Theorem C07_table_fold : forall d h, t_run d h = spec_table d h.
 Proof. exact table_fold_proof. Qed.
 Print Assumptions C07_table_fold.
@@ -140,12 +173,12 @@ Print Assumptions C07_table_order_irrelevant.
 
 (* as found (before fix C07-trim-stale; [trim] is the loop without the recomputation) the full
    statement was false: a value predicate kept an emptied column with its old total ... *)
-Theorem C07_trim_asfound_refuted : exists h pred, let t := t_run 0%N h in trim pred t <> spec_trim pred t.
+Theorem C07_trim_asfound_refuted : exists h pred, let t := t_run [0%N] h in trim pred t <> spec_trim pred t.
 Proof. exact trim_refuted. Qed.
 Print Assumptions C07_trim_asfound_refuted.
 (* ... and even for a column predicate the surviving rows kept their old Sum() *)
 Theorem C07_trim_asfound_refuted_colpred : exists h sel,
-  let pred := fun (c _ : bytes) (_ : Z) => sel c in let t := t_run 0%N h in trim pred t <> spec_trim pred t.
+  let pred := fun (c _ : bytes) (_ : Z) => sel c in let t := t_run [0%N] h in trim pred t <> spec_trim pred t.
 Proof. exact trim_refuted_colpred. Qed.
 Print Assumptions C07_trim_asfound_refuted_colpred.
 
